@@ -42,6 +42,8 @@ def cases(tier, seed):
         out.append({"kind": "kit", "cls": c, "seed": seed, "count": per})
     for e in gen.enzyme_names():
         out.append({"kind": "generic", "enzyme": e, "seed": seed, "count": per})
+    for c in classes:
+        out.append({"kind": "indels", "cls": c, "seed": seed, "instances": 1 if tier == "quick" else 40})
     for j in range(0, 80 if tier == "quick" else 2400, 10):
         out.append({"kind": "nested-pairs", "from": j, "count": 10, "seed": seed})
     its = regs.items()
@@ -188,6 +190,19 @@ def execute(mat, ctx):
             rng = gen.rng_for(mat["seed"], PROP, "reg", key)
             for r in (0, rng.randrange(len(s)), rng.randrange(len(s))):
                 _probe(ctx, cls, rot_left(s, r), "registry")
+        return
+    if kind == "indels":
+        # every single-nucleotide deletion and insertion of a compact instance: sites, spacers and fusion sites one step out
+        # of register (two sites of a hand-written structure that each look right but no longer agree on the cut)
+        cls = gen.class_by_name(mat["cls"])
+        rng = gen.rng_for(mat["seed"], PROP, "indels", mat["cls"])
+        for _ in range(mat["instances"]):
+            s = gen.instance(rng, cls.structure(), run_min=1, run_max=5) + gen.rand_dna(rng, rng.randint(0, 4))
+            for i in range(len(s)):
+                _probe(ctx, cls, s[:i] + s[i + 1:], "deletion")
+                _probe(ctx, cls, s[:i] + rng.choice("ACGT") + s[i:], "insertion")
+            ctx.count("c04_indel_instances")
+        ctx.sample({"kind": kind, "class": mat["cls"]}, cap=1)
         return
     classes = gen.concrete_kit_classes()
     if kind == "kit":
